@@ -113,7 +113,10 @@ func natBinOrac(f func(x, y *big.Int, ax, ay, c int) *big.Int) func(c *tcase) st
 
 func init() {
 	register(&opDef{name: "nat.set", weight: 4,
-		gen: func(r *vh.Rng, g *genCtx) *tcase { x := g.val(r); return &tcase{args: []*big.Int{x, zi(g.capFor(r, x))}} },
+		gen: func(r *vh.Rng, g *genCtx) *tcase {
+			x := g.val(r)
+			return &tcase{args: []*big.Int{x, zi(g.capFor(r, x))}}
+		},
 		impl: func(c *tcase) (string, string) {
 			n := mkNat(c.args[0], ai(c, 1))
 			cl := n.Clone()
@@ -320,6 +323,13 @@ func init() {
 				if x.Sign() > 0 {
 					x.Sub(x, one)
 				}
+			}
+			if r.Intn(4) == 0 { // a square whose top bit is the only bit of the last two-bit group (odd length)
+				k := 33 + r.Intn(g.maxBits/2-33)
+				rt := new(big.Int).Lsh(one, uint(k))
+				rt.Add(rt, r.BigBits(k/2))
+				x = new(big.Int).Mul(rt, rt)
+				return &tcase{args: []*big.Int{x, zi(x.BitLen())}, mode: r.Intn(2)}
 			}
 			return &tcase{args: []*big.Int{x, zi(g.capFor(r, x))}, mode: r.Intn(2)}
 		},
